@@ -324,7 +324,16 @@ func runC14Bubble(t *testing.T, tape *sim.Tape, tier string, o *Outcome, schedp 
 					lifeThisStep = true
 					op := tape.Draw(3, "life")
 					wasRunning := running
+					// the application may change or remove the password between the generations of the server
+					rotate := tape.Draw(4, "rotate")
+					newPw := fmt.Sprintf("pw%d", tape.Draw(3, "newpw"))
 					go func() {
+						switch rotate {
+						case 2:
+							srv.SetRequirePass(newPw)
+						case 3:
+							srv.RemoveRequirePass()
+						}
 						switch {
 						case op == 0 && wasRunning:
 							srv.Stop()
@@ -373,7 +382,7 @@ func init() {
 	register(&Check{
 		ID: "C14", Bubble: false, Run: runC14, NoShrink: false,
 		Runs:   map[string]int{"quick": 6000, "thorough": 150000},
-		Rule:   "a case is one run of 3..12 steps; each step releases a seed-chosen batch of 2..8 (thorough ..32) concurrent stimuli (dials, in a quarter of the runs also TLS clients with accepted/rejected/missing certificates doing a real handshake against the TLS port, commands of every family incl. CONFIG SET/GET (also of the TLS file settings and ports) and AUTH, close/reset/half-close, registry queries incl. Close on a returned connection, at most one Start/Stop/Restart) and then waits for quiescence; the harness and the repo are built with -race and a report counts when both access stacks contain a framework frame; distinct = distinct stimulus-batch sequences; non-trivial = the run contains a lifecycle call, registry query or disconnect",
+		Rule:   "a case is one run of 3..12 steps; each step releases a seed-chosen batch of 2..8 (thorough ..32) concurrent stimuli (dials, in a quarter of the runs also TLS clients with accepted/rejected/missing certificates doing a real handshake against the TLS port, commands of every family incl. CONFIG SET/GET (also of the TLS file settings and ports) and AUTH, close/reset/half-close, registry queries incl. Close on a returned connection, at most one Start/Stop/Restart, half of them after the application changed or removed the password) and then waits for quiescence; the harness and the repo are built with -race and a report counts when both access stacks contain a framework frame; distinct = distinct stimulus-batch sequences; non-trivial = the run contains a lifecycle call, registry query or disconnect",
 		Real:   []string{"redis.Server (all of it) under the Go race detector", "reference store (internally locked)"},
 		Stub:   []string{"network: free-running simulated listener/connections with per-object locks only", "scheduler: seed decides stimuli and step boundaries; inside a step the Go runtime runs freely (the verdict is a happens-before property)"},
 		Assume: []string{"verdicts replay, traces do not: the replay criterion is that the same site pair is reported", "two lifecycle calls are never issued concurrently with each other"},
